@@ -1221,6 +1221,45 @@ func init() {
 							}
 						}
 					}
+					// the decision kept as a value first (`omit := opt && value == ""; if !omit { write '=' }`): the branch on
+					// the option only computes the value (its region has no effect) and the block where it ends branches on
+					// the merged boolean - that branch is the one that decides
+					if iff != nil {
+						region := branchRegion(st.f, iff.Block())
+						quiet := true
+						inRegion := map[*ssa.BasicBlock]bool{iff.Block(): true}
+						for _, rb := range region {
+							inRegion[rb] = true
+							for _, ins := range rb.Instrs {
+								switch ins.(type) {
+								case *ssa.Call, *ssa.Store, *ssa.MapUpdate, *ssa.Send, *ssa.Go, *ssa.Defer, *ssa.Return, *ssa.Panic:
+									quiet = false
+								}
+							}
+						}
+						if quiet {
+							var join *ssa.BasicBlock
+							for b := range inRegion {
+								for _, sc := range b.Succs {
+									if !inRegion[sc] {
+										if join != nil && join != sc {
+											quiet = false
+										}
+										join = sc
+									}
+								}
+							}
+							if quiet && join != nil {
+								if i2, ok := lastIf(join); ok {
+									for _, nf := range normFact(i2.Cond, true) {
+										if phi, isPhi := nf.Cond.(*ssa.Phi); isPhi && phi.Block() == join {
+											iff = i2
+										}
+									}
+								}
+							}
+						}
+					}
 					if iff != nil {
 						region := branchRegion(st.f, iff.Block())
 						wrote := false
